@@ -379,6 +379,10 @@ class MaskAnalysis(object):
         while p is not None:
             if p.kind == 'SwitchStmt':
                 c = strip(p.kids[-2], casts=True)
+                # `wi_t const width = X->width; switch (width)`: a local defined once stands for its definition
+                for _ in range(3):
+                    if c.kind == 'DeclRefExpr' and c.refkind == 'VarDecl' and fs.single_def(c.refid) is not None:
+                        c = strip(fs.single_def(c.refid), casts=True)
                 Y = fs.base_name(c.kids[0]) if c.kind == 'MemberExpr' else None
                 if c.kind == 'MemberExpr' and c.name == 'width' and (Y == X or (self.relations is not None and self.relations(self._cur_f, Y, X) and self.relations(self._cur_f, X, Y))):
                     # find the case label governing `child` inside the switch body
